@@ -8,6 +8,7 @@ import Heathcliff.Proofs.C20I
 import Heathcliff.Proofs.C20J
 import Heathcliff.Proofs.C20K
 import Heathcliff.Proofs.C20M
+import Heathcliff.Proofs.C20N
 
 /- Property C20: homomorphic matrix products and convolutions equal plaintext ones, all shapes.
    Property theorems only (proofs are the helper lemmas of Heathcliff/Proofs/C20*.lean). -/
@@ -293,12 +294,46 @@ example : (do
     pure (out.getD 26 0)) = .ok (((List.range 9).map fun k => ((7 * (18 + k) + 3) % 97) * ((11 * (9 * k + 8) + 5) % 97)).sum % 97) := by
   decide +kernel
 
-/-- ... for `MatmulBoltCcCr`: NOT proved -/
+/-- ... for `MatmulBoltCcCr` (LHS column-major, RHS row-major, product collected by diagonals); `N < 2^64` added as for `bolt_cp` -/
 def BoltCcCrStatement : Prop :=
-  ∀ (S : Type) [CommRing S] (m r n N : Nat) (h : BoltCc) (x w : Nat → S), BoltCc.newCr m r n N = .ok h → (∃ e, N = 2^e) →
+  ∀ (S : Type) [CommRing S] (m r n N : Nat) (h : BoltCc) (x w : Nat → S), BoltCc.newCr m r n N = .ok h → (∃ e, N = 2^e) → N < 2^64 →
     ∃ X W Y out, boltCrEncodeInputs h 0 x (m * r) = .ok X ∧ boltCrEncodeWeights h 0 w (r * n) = .ok W ∧
       boltCrMultiply h (· + ·) (· * ·) 0 X W = .ok Y ∧ boltCrDecodeOutputs h 0 Y = .ok out ∧
       ∀ i j, i < m → j < n → out.getD (i * n + j) 0 = ∑ k ∈ range r, x (i * r + k) * w (k * n + j)
+
+/-- ... PROVED -/
+theorem BoltCcCrStatement_proof : BoltCcCrStatement := by
+  intro S _ m r n N h x w hnew hpow hN
+  obtain ⟨X, W, Y, out, h1, h2, h3, h4, _, h6⟩ := HC.c20_boltCr_new hnew hpow hN x w
+  exact ⟨X, W, Y, out, h1, h2, h3, h4, h6⟩
+
+/-- **`MatmulBoltCcCr`, whole pipeline** for EVERY helper with `N = gsc·gap`, `gsc = 2^(g+1)`, `0 < m ≤ gap` (the bundle `c20_CcOK`)
+    and `r > 0`: all block pairs, `multiply` of the small helper (rotate the RHS by the shift, multiply, `sum_inplace`, mask the
+    diagonal segment, optional accumulators; the wrapped part of a diagonal from the rotation by `shift − m`), decode by diagonals -/
+theorem bolt_cc_cr_whole : type_of% @HC.c20_boltCr_whole := @HC.c20_boltCr_whole
+theorem bolt_cc_cr_new : type_of% @HC.c20_boltCr_new := @HC.c20_boltCr_new
+theorem bolt_cc_cr_new_ok : type_of% @HC.c20_boltCrNew_ok := @HC.c20_boltCrNew_ok
+/-- `sum_inplace`: after log-many rotations (the last one across the rows) every column holds the sum of all columns -/
+theorem bolt_sum_all_spec : type_of% @HC.c20_boltSumAll_spec := @HC.c20_boltSumAll_spec
+/-- `MatmulBoltCcCrSmall::multiply` on arbitrary polynomials: diagonal `sh` at polynomial `sh / gsc`, column `sh mod gsc` -/
+theorem bolt_cc_cr_multiply_spec : type_of% @HC.c20_crMulSmall_spec := @HC.c20_crMulSmall_spec
+/-- the index map of `decode_outputs` (cc_cr) over all blocks -/
+theorem bolt_cc_cr_decode_spec : type_of% @HC.c20_boltCrDecode_spec := @HC.c20_boltCrDecode_spec
+
+/-- non-vacuity: the constructor accepts 5×7·7×3 at N = 16 (block side 5, gap 8, two columns per polynomial) and 3×5·5×3 at N = 32
+    (gap 4, eight columns: three rotations in `sum_inplace`); the hypotheses of `bolt_cc_cr_new` are satisfiable -/
+example : BoltCc.newCr 5 7 3 16 = .ok ⟨16, 5, 7, 3, 5, 8, 2⟩ := by rfl
+example : BoltCc.newCr 3 5 3 32 = .ok ⟨32, 3, 5, 3, 3, 4, 8⟩ := by rfl
+example (x w : Nat → ℤ) := bolt_cc_cr_new (show BoltCc.newCr 3 5 3 32 = .ok ⟨32, 3, 5, 3, 3, 4, 8⟩ by rfl) ⟨5, rfl⟩ (by decide) x w
+/-- ... and the model's pipeline on 3×5·5×3 at N = 32 over ℤ/97: entry (2, 1) -/
+example : (do
+    let h ← BoltCc.newCr 3 5 3 32
+    let X ← boltCrEncodeInputs h 0 (fun i => (7 * i + 3) % 97) 15
+    let W ← boltCrEncodeWeights h 0 (fun i => (11 * i + 5) % 97) 15
+    let Y ← boltCrMultiply h (fun a b => (a + b) % 97) (fun a b => (a * b) % 97) 0 X W
+    let out ← boltCrDecodeOutputs h 0 Y
+    pure (out.getD 7 0)) = .ok (((List.range 5).map fun k => ((7 * (10 + k) + 3) % 97) * ((11 * (3 * k + 1) + 5) % 97)).sum % 97) := by
+  decide +kernel
 
 /-- ... for `MatmulBoltCcDc`: NOT proved -/
 def BoltCcDcStatement : Prop :=
